@@ -83,7 +83,7 @@ fn whole_ops(acc: &mut Acc, e: &Envelope, m_digest_wrapped: D, label: &dyn Fn() 
 
 pub fn run(ctx: &Ctx) -> i32 {
     let th = ctx.tier.thorough();
-    let (w1, w2) = if th { (7, 5) } else { (6, 4) };
+    let (w1, w2) = if th { (8, 6) } else { (7, 5) };
     let mut trees = families::plain(w1);
     let ntrees_plain = trees.len();
     trees.extend(families::decode_only());
